@@ -113,7 +113,12 @@ def _eval_chunk(args):
             if _canon_outcome(o) != _canon_outcome(o2):
                 res["herr"].append(f"nondeterministic outcome for item {item!r}: "
                                    f"{_canon_outcome(o)[:400]} vs {_canon_outcome(o2)[:400]}")
-                continue
+                # violations whose signature shows up in BOTH evaluations are reproducible in kind and are still reported
+                common = {json.dumps(v.get("sig"), sort_keys=True) for v in o.get("viol") or []} & \
+                         {json.dumps(v.get("sig"), sort_keys=True) for v in o2.get("viol") or []}
+                o = dict(o, viol=[v for v in o.get("viol") or [] if json.dumps(v.get("sig"), sort_keys=True) in common])
+                if not o["viol"]:
+                    continue
         for v in o.get("viol") or []:
             v = dict(v)
             v["reproduced_twice"] = True
